@@ -1321,6 +1321,12 @@ impl<'a> LL1Validator {
         concat
             .operands(cst)
             .filter(|op| !matches!(op, Regex::Predicate(_)))
+            .skip_while(|op| {
+                matches!(
+                    op,
+                    Regex::NodeRename(_) | Regex::NodeElision(_) | Regex::Action(_)
+                )
+            })
             .nth(1)
             .unwrap()
     }
